@@ -778,7 +778,7 @@ class Contractor:
             for leaf, array in zip(map(node_from_single, range(N)), arrays)
         }
 
-        exponent = 0.0 if (strip_exponent is not False) else None
+        exponent = 0.0 if strip_exponent else None
 
         if progbar:
             import tqdm
